@@ -2,7 +2,7 @@
 # Background sweep: thorough tier for the given properties with a few seeds. Usage: tools/thorough_all.sh "C01 C02" [budget_s]
 D="$(cd "$(dirname "$0")/.." && pwd)"
 for p in $1; do
-  for s in 101 202; do
+  for s in ${SEEDS:-101 202}; do
     VERIF_SEED=$s "$D/vcheck" $p --tier thorough --budget ${2:-300} 2>&1 | grep -v "^  \|KNOWN-FINDING" | tail -3
   done
 done
